@@ -114,42 +114,42 @@ Proof. intros; unfold a_set. now rewrite Nat.eqb_refl. Qed.
 Lemma a_set_other : forall f i p j, j <> i -> a_set f i p j = f j.
 Proof. intros; unfold a_set. apply Nat.eqb_neq in H. now rewrite H. Qed.
 
+Ltac aset_goal I1 I2 I5 i :=
+  let j := fresh "j" in let Hj := fresh "Hj" in let N := fresh "N" in
+  intros j Hj; destruct (Nat.eq_dec j i) as [->|N];
+  [rewrite ?a_set_same in * | rewrite ?a_set_other in * by auto];
+  try discriminate; try congruence; auto;
+  try (specialize (I1 _ Hj); congruence);
+  try (specialize (I2 _ Hj); congruence);
+  try (specialize (I5 _ Hj); congruence);
+  try (assert (X : a_lock _ = Some j) by (apply I1; first [exact Hj | rewrite Hj; reflexivity]); congruence);
+  try (inversion Hj; subst; rewrite ?a_set_same; reflexivity).
+
 Lemma ainv_step : forall F s i s', start_ok F = true -> AInv s -> a_step F s i = Some s' -> AInv s'.
 Proof.
   intros F s i s' HF (I1 & I2 & I3 & I4 & I5) H.
   unfold start_ok in HF. apply andb_true_iff in HF as [Hl Hr].
   unfold a_step in H. rewrite Hl, Hr in H. simpl in H.
   destruct (a_pc s i) eqn:Ep.
-  - (* A0 *) inversion H; subst; clear H. unfold AInv; simpl. repeat split; auto.
+  - (* A0 *) inversion H; subst; clear H. unfold AInv; simpl.
+    split; [|split; [|split; [|split]]]; auto.
     + intros j Hj. destruct (Nat.eq_dec j i) as [->|N]; [rewrite a_set_same in Hj; destruct (a_on s); discriminate|].
       rewrite a_set_other in Hj by auto. auto.
     + intros j Hj. destruct (Nat.eq_dec j i) as [->|N]; [specialize (I2 _ Hj); rewrite Ep in I2; discriminate|].
       rewrite a_set_other by auto. auto.
     + intros j Hj. destruct (Nat.eq_dec j i) as [->|N]; [rewrite a_set_same in Hj; destruct (a_on s); discriminate|].
       rewrite a_set_other in Hj by auto. eauto.
-  - (* A1 *) destruct (a_lock s) eqn:El; [discriminate|]. inversion H; subst; clear H. unfold AInv; simpl. repeat split; auto.
-    + intros j Hj. destruct (Nat.eq_dec j i) as [->|N]; auto. rewrite a_set_other in Hj by auto.
-      specialize (I1 _ Hj). congruence.
-    + intros j Hj. inversion Hj; subst. now rewrite a_set_same.
-    + intros j Hj. destruct (Nat.eq_dec j i) as [->|N]; [rewrite a_set_same in Hj; discriminate|].
-      rewrite a_set_other in Hj by auto. eauto.
+  - (* A1 *) destruct (a_lock s) eqn:El; [discriminate|]. inversion H; subst; clear H. unfold AInv; simpl.
+    split; [|split; [|split; [|split]]]; auto.
+    + aset_goal I1 I2 I5 i.
+    + aset_goal I1 I2 I5 i.
+    + aset_goal I1 I2 I5 i.
   - (* A2 *) assert (L : a_lock s = Some i) by (apply I1; rewrite Ep; reflexivity).
-    destruct (a_on s) eqn:Eo; inversion H; subst; clear H; unfold AInv; simpl; repeat split; auto; try congruence.
-    + intros j Hj. destruct (Nat.eq_dec j i) as [->|N]; [rewrite a_set_same in Hj; discriminate|].
-      rewrite a_set_other in Hj by auto. specialize (I1 _ Hj). congruence.
-    + intros j Hj. discriminate.
-    + intros j Hj. destruct (Nat.eq_dec j i) as [->|N]; [rewrite a_set_same in Hj; discriminate|].
-      rewrite a_set_other in Hj by auto. specialize (I5 _ Hj). congruence.
-    + intros j Hj. destruct (Nat.eq_dec j i) as [->|N]; auto. rewrite a_set_other in Hj by auto. auto.
-    + intros j Hj. rewrite L in Hj. inversion Hj; subst. now rewrite a_set_same.
+    destruct (a_on s) eqn:Eo; inversion H; subst; clear H; unfold AInv; simpl;
+      (split; [|split; [|split; [|split]]]); auto; try congruence; try (aset_goal I1 I2 I5 i).
   - (* A3 *) assert (L : a_lock s = Some i) by (apply I1; rewrite Ep; reflexivity).
-    pose proof (I5 _ Ep) as Off. inversion H; subst; clear H. unfold AInv; simpl. repeat split; auto; try discriminate.
-    + intros j Hj. destruct (Nat.eq_dec j i) as [->|N]; [rewrite a_set_same in Hj; discriminate|].
-      rewrite a_set_other in Hj by auto. specialize (I1 _ Hj). congruence.
-    + intros _. rewrite (I4 Off). reflexivity.
-    + intros j Hj. destruct (Nat.eq_dec j i) as [->|N]; [rewrite a_set_same in Hj; discriminate|].
-      rewrite a_set_other in Hj by auto. assert (X : a_inside (a_pc s j) = true) by (rewrite Hj; reflexivity).
-      specialize (I1 _ X). congruence.
+    pose proof (I5 _ Ep) as Off. inversion H; subst; clear H. unfold AInv; simpl.
+    split; [|split; [|split; [|split]]]; auto; try discriminate; try (aset_goal I1 I2 I5 i).
   - discriminate.
 Qed.
 
